@@ -120,6 +120,10 @@ example : (run Skeleton.current init [⟨0, .linkStart⟩, ⟨1, .linkStart⟩])
     invocations to the first link's peer, and let that link's failure fail them. -/
 theorem C13_closure_invocations_use_their_own_link : Skeleton.current.pxClosureIdPerInvocation = true := by decide
 
+/-- Invocations stay with the call (and link) that passed the closure: every registration gets an entry and an id of its own — no sharing by function identity (`reflect.Value.Pointer()` is the CODE pointer: equal for all closures of one literal) — and the manager has no state beyond its table (checked against the regenerated skeleton). -/
+theorem C13_closures_of_different_calls_are_different_entries :
+    Skeleton.current.clIdFresh = true ∧ Skeleton.current.clStoresCreatedClosure = true := by decide
+
 end Panrpc.Rg
 
 #print axioms Panrpc.Rg.C13_closure_invocations_use_their_own_link
@@ -130,3 +134,4 @@ end Panrpc.Rg
 #print axioms Panrpc.Rg.C13_isolation
 #print axioms Panrpc.Rg.C13_isolation_commute
 #print axioms Panrpc.Rg.C13_isolation_run
+#print axioms Panrpc.Rg.C13_closures_of_different_calls_are_different_entries
